@@ -784,4 +784,208 @@ theorem pushLeaves_sorted {H : HashFn} {leaves : List (Bytes × Bytes)} {hs : Li
       exact ⟨rfl, hlen p hp'⟩
   · cases h
 
+
+theorem zerosLow_succ' : ∀ (t e : Nat), zerosLow e (t + 1) = zerosLow e t + (if (e / 2 ^ t) % 2 = 0 then 1 else 0) := by
+  intro t
+  induction t with
+  | zero => intro e; simp [zerosLow]
+  | succ t ih =>
+    intro e
+    conv => lhs; unfold zerosLow
+    rw [ih (e / 2)]
+    conv => rhs; unfold zerosLow
+    have : e / 2 / 2 ^ t = e / 2 ^ (t + 1) := by
+      rw [Nat.div_div_eq_div_mul, Nat.pow_succ, Nat.mul_comm]
+    rw [this]; omega
+
+theorem pow_le_u32 {t idx : Nat} (h1 : 2 ^ t - 1 ≤ idx) (h2 : idx ≤ U32_MAX) : t ≤ 32 := by
+  have : 2 ^ t ≤ 2 ^ 32 := by simp [U32_MAX] at h2; omega
+  exact (Nat.pow_le_pow_iff_right (by omega)).mp this
+
+/-- the loop of `compute_tree_size`: the result is `(e / 2^t' + 1) · 2^t'` for the `t'` at which the requested number
+    of zero bits of `e` has been filled -/
+theorem computeTreeSizeAux_char (e : Nat) : ∀ (fuel t rem idx T : Nat),
+    idx = (e / 2 ^ t) * 2 ^ t + (2 ^ t - 1) → (idx < U32_MAX ∨ t = 0) → idx ≤ U32_MAX →
+    computeTreeSizeAux fuel rem idx (2 ^ t) = .ok T →
+    ∃ t', T = (e / 2 ^ t' + 1) * 2 ^ t' ∧ zerosLow e t' = zerosLow e t + rem := by
+  intro fuel
+  induction fuel with
+  | zero => intro t rem idx T _ _ _ h; simp [computeTreeSizeAux] at h
+  | succ f ih =>
+    intro t rem idx T hidx hlt hle h
+    have hpt : 1 ≤ 2 ^ t := Nat.one_le_two_pow
+    unfold computeTreeSizeAux at h
+    by_cases hr : rem = 0
+    · simp only [hr, ↓reduceIte, Except.ok.injEq] at h
+      refine ⟨t, ?_, by simp [hr]⟩
+      rw [← h, hidx, Nat.add_mul]; omega
+    · simp only [hr, ↓reduceIte] at h
+      have hm0 : ¬ (2 ^ t = 0) := by omega
+      simp only [hm0, ↓reduceIte] at h
+      have hdiv : idx / 2 ^ t = e / 2 ^ t := by rw [hidx]; exact fill_div _ _ hpt
+      rw [hdiv] at h
+      have ht32 : t ≤ 32 := pow_le_u32 (by rw [hidx]; omega) hle
+      have hmask : 2 ^ t * 2 % USIZE_MOD = 2 ^ (t + 1) := by
+        rw [← Nat.pow_succ]
+        apply Nat.mod_eq_of_lt
+        have : 2 ^ (t + 1) ≤ 2 ^ 33 := Nat.pow_le_pow_right (by omega) (by omega)
+        simp [USIZE_MOD]; omega
+      rw [hmask] at h
+      have hq2 : e / 2 ^ (t + 1) = e / 2 ^ t / 2 := by
+        rw [Nat.div_div_eq_div_mul, Nat.pow_succ]
+      have hpow1 : 2 ^ (t + 1) = 2 * 2 ^ t := by rw [Nat.pow_succ]; omega
+      by_cases h0 : (e / 2 ^ t) % 2 = 0
+      · simp only [h0, beq_self_eq_true, ↓reduceIte] at h
+        have hq' : e / 2 ^ t = 2 * (e / 2 ^ t / 2) := by omega
+        have hidx' : idx + 2 ^ t = (e / 2 ^ (t + 1)) * 2 ^ (t + 1) + (2 ^ (t + 1) - 1) := by
+          rw [hidx, hq2, hpow1]
+          conv => lhs; rw [hq']
+          exact fill_even _ _ hpt
+        -- idx + 2^t ≤ U32_MAX: bit t of idx is zero and t < 32 (or t = 0 and idx even)
+        have hle' : idx + 2 ^ t ≤ U32_MAX := by
+          rcases hlt with hlt | ht0
+          · -- idx < 2^32 - 1, its bit t is 0: idx + 2^t is idx with that bit set, still below 2^32
+            have hbit : idx / 2 ^ t % 2 = 0 := by rw [hdiv]; exact h0
+            have ht : t < 32 := by
+              rcases Nat.lt_or_ge t 32 with h | h
+              · exact h
+              · exfalso
+                have : t = 32 := by omega
+                subst this
+                simp [U32_MAX] at hlt hidx
+                omega
+            -- idx = a·2^(t+1) + b with b < 2^t, and a·2^(t+1) + 2^(t+1) ≤ 2^32
+            have hb := Nat.div_add_mod idx (2 ^ (t + 1))
+            have hmodlt : idx % 2 ^ (t + 1) < 2 ^ t := by
+              rw [Nat.mod_pow_succ, hbit]; simp
+              exact Nat.mod_lt _ (by omega)
+            have hdvd : 2 ^ (t + 1) ∣ 2 ^ 32 := Nat.pow_dvd_pow 2 (by omega)
+            obtain ⟨c, hc⟩ := hdvd
+            have hA : idx / 2 ^ (t + 1) < c := by
+              apply Nat.div_lt_of_lt_mul
+              rw [← hc]; simp [U32_MAX] at hlt; omega
+            have hB : (idx / 2 ^ (t + 1) + 1) * 2 ^ (t + 1) ≤ c * 2 ^ (t + 1) := Nat.mul_le_mul_right _ (by omega)
+            rw [Nat.add_mul, Nat.one_mul, Nat.mul_comm c, ← hc, Nat.mul_comm] at hB
+            simp [U32_MAX]
+            omega
+          · subst ht0
+            simp at hidx h0 ⊢
+            simp [U32_MAX] at hle ⊢
+            omega
+        by_cases hu : idx + 2 ^ t = U32_MAX
+        · simp [hu] at h
+        · simp only [hu, ↓reduceIte] at h
+          obtain ⟨t', hT, hz⟩ := ih (t + 1) (rem - 1) (idx + 2 ^ t) T hidx' (Or.inl (by omega)) hle' h
+          refine ⟨t', hT, ?_⟩
+          rw [hz, zerosLow_succ', if_pos h0]; omega
+      · have h1 : (e / 2 ^ t) % 2 = 1 := by omega
+        have hb : ((1 : Nat) == 0) = false := rfl
+        simp only [h1, hb, Bool.false_eq_true, ↓reduceIte] at h
+        have hq' : e / 2 ^ t = 2 * (e / 2 ^ t / 2) + 1 := by omega
+        have hidx' : idx = (e / 2 ^ (t + 1)) * 2 ^ (t + 1) + (2 ^ (t + 1) - 1) := by
+          rw [hidx, hq2, hpow1]
+          conv => lhs; rw [hq']
+          exact fill_odd _ _ hpt
+        by_cases hu : idx = U32_MAX
+        · simp [hu] at h
+        · simp only [hu, ↓reduceIte] at h
+          obtain ⟨t', hT, hz⟩ := ih (t + 1) rem idx T hidx' (Or.inl (by omega)) hle h
+          refine ⟨t', hT, ?_⟩
+          rw [hz, zerosLow_succ', if_neg (by omega)]; omega
+
+theorem computeTreeSize_char {c e T : Nat} (he : e ≤ U32_MAX) (h : computeTreeSize c e = .ok T) :
+    ∃ t, T = (e / 2 ^ t + 1) * 2 ^ t ∧ zerosLow e t = c := by
+  unfold computeTreeSize at h
+  have := computeTreeSizeAux_char e (c + 70) 0 c e T (by simp) (Or.inr rfl) he (by simpa using h)
+  simpa [zerosLow] using this
+
+/-- **What `check_range_proof` evaluates**: when it accepts a non-trivial proof it has evaluated a proof tree whose
+    frontier is exactly (the first `popcount(start)` proof nodes) ++ (all the leaves) ++ (ALL the remaining proof nodes):
+    `compute_tree_size` makes the recursion consume every proof node. -/
+theorem checkRangeProof_frontier {H : HashFn} {ign : Bool} {root : NsHash} {X P : List NsHash} {s : Nat}
+    (hX : 1 ≤ X.length) (hnt : ¬ (X.length = 1 ∧ P = [])) (hu : s + X.length ≤ U32_MAX + 1)
+    (h : checkRangeProof H ign root X P s = .ok ()) :
+    computeNumLeftSiblings s ≤ P.length ∧
+    ∃ t : PT, t.frontier = P.take (computeNumLeftSiblings s) ++ X ++ P.drop (computeNumLeftSiblings s) ∧
+      t.eval H ign = .ok root := by
+  unfold checkRangeProof at h
+  have h0 : ¬ (X.length = 0) := by omega
+  simp only [h0, ↓reduceIte] at h
+  have hnt' : ¬ (X.length = 1 ∧ P.isEmpty = true) := by
+    intro hc; exact hnt ⟨hc.1, by simpa using hc.2⟩
+  simp only [hnt', ↓reduceIte] at h
+  split at h
+  · cases h
+  · rename_i hnl
+    refine ⟨by omega, ?_⟩
+    split at h
+    · cases h
+    · rename_i T hts
+      split at h
+      · cases h
+      · rename_i computed X' P' hin
+        split at h
+        · rename_i heq
+          have heq' : computed = root := by simpa using heq
+          subst heq'
+          have hge := computeTreeSize_ge hts
+          have hT2 : 2 ≤ T := by
+            by_cases h2 : 2 ≤ X.length
+            · omega
+            · have hx1 : X.length = 1 := by omega
+              have hP : P ≠ [] := fun hp => hnt ⟨hx1, hp⟩
+              by_cases hs0 : s = 0
+              · subst hs0
+                have hn0 : computeNumLeftSiblings 0 = 0 := rfl
+                rw [hn0, hx1] at hts
+                have : 1 ≤ P.length := by
+                  cases P with
+                  | nil => exact absurd rfl hP
+                  | cons a b => simp
+                exact computeTreeSize_ge_two (by omega) hts
+              · omega
+          obtain ⟨t, PL, XS, PR, hXe, hPe, hfr, hev, hxs, hpr, hpl⟩ :=
+            frontier_inner T hT2 (Nat.zero_le _) (by omega) (by omega) hX hin
+          -- all leaves consumed
+          have hXS : XS.length = X.length := by
+            rw [hxs]; have : max s 0 = s := by omega
+            rw [this]; omega
+          have hX' : X' = [] := by
+            apply List.eq_nil_of_length_eq_zero
+            have := congrArg List.length hXe
+            simp at this; omega
+          subst hX'
+          simp only [List.nil_append] at hXe
+          subst hXe
+          -- sibling counts
+          simp only [Nat.zero_le, ↓reduceIte, Nat.sub_zero] at hpl hpr
+          rw [nLeft_popcount T T s (Nat.le_refl _) (by omega)] at hpl
+          obtain ⟨tt, hTt, hz⟩ := computeTreeSize_char (by omega) hts
+          have hdm : X.length + s - 1 = (X.length + s - 1) / 2 ^ tt * 2 ^ tt + (X.length + s - 1) % 2 ^ tt := by
+            have := Nat.div_add_mod (X.length + s - 1) (2 ^ tt)
+            rw [Nat.mul_comm] at this; omega
+          have hes : s + X.length - 1 = X.length + s - 1 := by omega
+          rw [hes] at hTt hz
+          have hpos : 0 < 2 ^ tt := Nat.two_pow_pos tt
+          have hmodlt : (X.length + s - 1) % 2 ^ tt < 2 ^ tt := Nat.mod_lt _ hpos
+          have hnr : nRight T (X.length + s - 1) T = P.length - computeNumLeftSiblings s := by
+            conv => lhs; rw [hdm, hTt]
+            rw [nRight_fill _ _ tt _ hmodlt (by rw [← hTt]; exact Nat.le_refl _)]
+            rw [← hz]
+            conv => rhs; rw [hdm]
+            rw [zerosLow_add_mul tt _ _ hmodlt]
+          rw [hnr] at hpr
+          have hP' : P' = [] := by
+            apply List.eq_nil_of_length_eq_zero
+            have := congrArg List.length hPe
+            simp at this; omega
+          subst hP'
+          simp only [List.nil_append] at hPe
+          have hPL : PL = P.take (computeNumLeftSiblings s) := by
+            rw [hPe, ← hpl]; simp
+          have hPR : PR = P.drop (computeNumLeftSiblings s) := by
+            rw [hPe, ← hpl]; simp
+          exact ⟨t, by rw [hfr, hPL, hPR], hev⟩
+        · cases h
+
 end Lumina.Proofs.NmtRange
